@@ -30,6 +30,7 @@ SHIMS = {
     'f-slice': dict(pattern=r'&params\[\.\.\]', replace=r'vec_as_slice(&params)', spec='r@ == v@'),
     'f-skip1': dict(pattern=r'param\.chars\(\)\.skip\(1\)\.collect\(\)', replace=r'string_skip1(&param)', spec='drop the first character'),
     'f-pushstr': dict(pattern=r'param\.push_str\(&accu\);', replace=r'string_push_str(&mut param, &accu);', spec="param' == param + accu"),
+    'f-remove0': dict(pattern=r'\b(char|code|accu|param|current)\.remove\(0\)', replace=r'string_remove0(&mut \1)', spec='String::remove(0): requires a non-empty string (panics otherwise); removes and returns the first character'),
     'f-println': dict(pattern=r'println!\("[^"]*"\);', replace=r'{ /* println! dropped */ }', spec='diagnostic output only'),
     'char-to-string-d': dict(pattern=r'(?<!&)\bchar\.to_string\(\)', replace=r'char_to_string(char)', spec='r@ == [c]'),
     'empty-to-string': dict(pattern=r'""\.to_string\(\)', replace=r'str_to_string("")', spec='r@ == s@'),
@@ -115,6 +116,8 @@ SHIMS = {
     'for-deref-key-c': dict(pattern=r'(?<=for &key in BASIC \{)', replace=r' let key = *key__r;', spec='Rust pattern semantics'),
     # Parser::is_special_start: the scan of the lazy_static SPECIAL set (membership PROVED on the initialiser block, unit parser)
     'special-any-prefix': dict(pattern=r'SPECIAL\.iter\(\)\.any\(\|special\| s\.starts_with\(special\)\)', replace=r'special_any_prefix(s)', spec='r == (some element of the SPECIAL table is a prefix of s); trusted: lazy_static deref, HashSet::iter visits every element, str::starts_with'),
+    # String::from_utf8_lossy(B).into_owned() / .to_string(): lossy UTF-8 decoding of a whole slice (no state): an uninterpreted function, equal to the byte-to-char map for all-ASCII input
+    'utf8-lossy-owned': dict(pattern=r'String::from_utf8_lossy\((\w+)\)\s*\.(?:into_owned|to_string)\(\)', replace=r'from_utf8_lossy_owned(\1)', spec='r@ == utf8_lossy(b@); for all-ASCII b the byte-to-char map'),
     # CharOpts::update_from_map
     'hm-into-pairs': dict(pattern=r'(?<=for \(key, value\) in )map(?= \{)', replace=r'pairs__it: hm_into_pairs(map)', spec='HashMap::into_iter by value yields every entry exactly once (some order)'),
     'parse-bool': dict(pattern=r'\bvalue\.parse\(\)\.unwrap_or\(false\)', replace=r'parse_bool_or_false(&value)', spec='str::parse::<bool>: exactly "true" gives true, anything else false'),
